@@ -24,6 +24,25 @@ OFFSETS = [
     (-700.0, 2100.0, -120.0),
     (1100.0, -1900.0, 600.0),
 ]
+# second layout ("ray"): short sights, and seen from A the targets B and C lie on one ray at
+# different distances: C is set off the ray by 0.4 mm to the right (clockwise), so that
+# - whatever the rounding of the file coordinates to 0.1 mm does - the horizontal angle at A
+# from B to C is +2.1..2.6 cc and its explement (from C to B) is 400 gon - 2.1..2.6 cc; seen from
+# C the points A and B lie in one direction again (angle from A to B: +2.5..3.1 cc) and the angle
+# at B is 200 gon.  With sights of 53 - 111 m the displacement of the approximate coordinates
+# (0.3 - 0.6 mm, mode pert) turns a direction by up to 13 cc: the angle computed from the
+# approximate coordinates falls on the other side of 0 / 400 gon for most status combinations
+# (counted: angles_observed_above_0_computed_below_400 and the reverse).  A few cc, not less,
+# because gama takes the angle from an arc cosine (resolution 1e-16 / angle).  No sight steeper
+# than 20 deg, height differences 6 - 18 m (distances still determine heights).
+_RAY = (54.0 / 60.37383539, 27.0 / 60.37383539)          # unit vector (n, e) of the ray, 54^2 + 27^2 = 3645
+RAY_OFFSETS = [
+    (0.0, 0.0, 0.0),
+    (54.0, 27.0, 12.0),
+    (99.0 - 0.0004 * _RAY[1], 49.5 + 0.0004 * _RAY[0], -6.0),
+    (-41.0, 72.0, 17.0),
+]
+LAYOUTS = [OFFSETS, RAY_OFFSETS]
 IDS = ["A", "B", "C", "D"]
 GEOID = {"A": 40.0, "B": 41.5, "C": 39.25, "D": 42.75}
 
@@ -32,16 +51,16 @@ STAT_CODE = {"fixed": "x", "free": "f", "constr": "c"}
 CODE_STAT = {v: k for k, v in STAT_CODE.items()}
 
 
-def truth(place, npts):
+def truth(place, npts, lay=0):
     """true geocentric coordinates, exactly the 4-decimal numbers written to
-    the input file: {id: (Decimal x, y, z)}"""
+    the input file: {id: (Decimal x, y, z)}; lay selects the layout of the points"""
     _, lat, lon = PLACES[place]
     b, l = math.radians(lat), math.radians(lon)
     o = R.blh2xyz(b, l, H0)
     n, e, u = R.frame(b, l)
     out = {}
     for k in range(npts):
-        dn, de, du = OFFSETS[k]
+        dn, de, du = LAYOUTS[lay][k]
         p = R.add(o, R.add(R.mul(n, dn), R.add(R.mul(e, de), R.mul(u, du))))
         out[IDS[k]] = tuple(R.dec(c, 4) for c in p)
     return out
@@ -92,14 +111,29 @@ COV3 = [  # full 3x3 (band 2), upper triangle by rows
 VAR1 = [4.0, 2.25, 9.0, 6.25, 1.44, 3.24]
 
 
+def dh_xml(o):
+    """optional <from-dh> / <to-dh> elements of an observation that carries heights (R.Ob)"""
+    dhs = getattr(o, "dhs", (None, None))
+    ends = R.DH_ENDS.get(o[0], "")
+    s = ""
+    if dhs[0] is not None and "f" in ends:
+        s += "<from-dh>%s</from-dh> " % dhs[0]
+    if dhs[1] is not None and "t" in ends:
+        s += "<to-dh>%s</to-dh> " % dhs[1]
+    return s
+
+
 def obs_xml(o, val, k, degrees=False, variance=False):
-    """one <obs> cluster with one observation; k selects the covariance"""
+    """one <obs> cluster with one observation; k selects the covariance.  The optional
+    elements may come in any order after the value: the heights are written before the
+    <stdev>/<variance> for even k and after it for odd k"""
     t = o[0]
+    dh = dh_xml(o)
     if t == "vector":
         c = COV3[k % len(COV3)]
-        return ("<obs>\n<vector> <from>%s</from> <to>%s</to> <dx>%s</dx> <dy>%s</dy> <dz>%s</dz> </vector>\n"
+        return ("<obs>\n<vector> <from>%s</from> <to>%s</to> <dx>%s</dx> <dy>%s</dy> <dz>%s</dz> %s</vector>\n"
                 "<cov-mat> <dim>3</dim> <band>2</band> %s </cov-mat>\n</obs>\n"
-                % (o[1], o[2], val[0], val[1], val[2], " ".join("<flt>%s</flt>" % R.fmt(v) for v in c)))
+                % (o[1], o[2], val[0], val[1], val[2], dh, " ".join("<flt>%s</flt>" % R.fmt(v) for v in c)))
     if t == "xyz":
         c = COV3[(k + 1) % len(COV3)]
         return ("<obs>\n<xyz> <id>%s</id> <x>%s</x> <y>%s</y> <z>%s</z> </xyz>\n"
@@ -107,16 +141,17 @@ def obs_xml(o, val, k, degrees=False, variance=False):
                 % (o[1], val[0], val[1], val[2], " ".join("<flt>%s</flt>" % R.fmt(v) for v in c)))
     v1 = VAR1[k % len(VAR1)]
     sd = ("<variance>%s</variance>" % R.fmt(v1)) if variance else ("<stdev>%s</stdev>" % R.fmt(math.sqrt(v1)))
+    opt = (dh + sd) if k % 2 == 0 else (sd + " " + dh).rstrip()
     if t == "distance":
-        return "<obs>\n<distance> <from>%s</from> <to>%s</to> <val>%s</val> %s </distance>\n</obs>\n" % (o[1], o[2], val[0], sd)
+        return "<obs>\n<distance> <from>%s</from> <to>%s</to> <val>%s</val> %s </distance>\n</obs>\n" % (o[1], o[2], val[0], opt)
     if t == "height":
         return "<obs>\n<height> <id>%s</id> <val>%s</val> %s </height>\n</obs>\n" % (o[1], val[0], sd)
     if t == "hdiff":
         return "<obs>\n<hdiff> <from>%s</from> <to>%s</to> <val>%s</val> %s </hdiff>\n</obs>\n" % (o[1], o[2], val[0], sd)
     if t in ("zenith", "azimuth"):
-        return "<obs>\n<%s> <from>%s</from> <to>%s</to> <val>%s</val> %s </%s>\n</obs>\n" % (t, o[1], o[2], val[0], sd, t)
+        return "<obs>\n<%s> <from>%s</from> <to>%s</to> <val>%s</val> %s </%s>\n</obs>\n" % (t, o[1], o[2], val[0], opt, t)
     if t == "angle":
-        return "<obs>\n<angle> <from>%s</from> <left>%s</left> <right>%s</right> <val>%s</val> %s </angle>\n</obs>\n" % (o[1], o[2], o[3], val[0], sd)
+        return "<obs>\n<angle> <from>%s</from> <left>%s</left> <right>%s</right> <val>%s</val> %s </angle>\n</obs>\n" % (o[1], o[2], o[3], val[0], opt)
     raise ValueError(t)
 
 
@@ -125,7 +160,7 @@ def obs_strings(o, X, T=None):
     Decimal differences of the file coordinates where the type is linear in
     them), angular types in gons with 14 decimals (1.6e-16 rad)"""
     t = o[0]
-    if t == "vector" and T is not None:
+    if t == "vector" and T is not None and not any(getattr(o, "dh", (0.0, 0.0))):
         return tuple(str(T[o[2]][i] - T[o[1]][i]) for i in range(3))
     if t == "xyz" and T is not None:
         return tuple(str(c) for c in T[o[1]])
